@@ -55,7 +55,12 @@ def step (os : OState) (line : String) : OState × String :=
     (os, m ++ "\t" ++ v)
   | "rr" :: _ =>
     -- C16 end to end: whatever bytes arrive as a request head, the client gets a well-formed HTTP response
-    if (fs.drop 1).head? = some "qpair" then
+    if (fs.drop 1).head? = some "tunnelhist" then
+      -- C10: however many requests a tunnel carries, each gets the answer to its own request
+      (os, "all-own-answers\t" ++ (if obs.startsWith "panic" then "bad:panic"
+        else if obs = "all-own-answers" || obs = "connect-failed" || obs = "handshake-failed" then "ok"
+        else "bad:tunnel-exchange-answered-with-something-else"))
+    else if (fs.drop 1).head? = some "qpair" then
       -- C02 / C08: the origin echoes the query it was asked for; every exchange gets the answer for ITS query
       let q1 := ((fs.drop 2).head?.getD "")
       let q2 := ((fs.drop 3).head?.getD "")
